@@ -4,15 +4,17 @@ EXTENDS RangeHash, Json
 CONSTANTS MaxLen, MaxVal, MaxRanges, WithMarkers
 VARIABLES len, rs, excl
 vars == <<len, rs, excl>>
-RangeSet == [start : 0..MaxVal, length : 0..MaxVal, marker : {FALSE}]
-            \cup (IF WithMarkers THEN [start : 0..MaxVal, length : {1}, marker : {TRUE}] ELSE {})
+PlainSet == [start : 0..MaxVal, length : 0..MaxVal, marker : {FALSE}, moff : {0}]
+ExclMarkers == {[start |-> m, length |-> 1, marker |-> TRUE, moff |-> m] : m \in 0..MaxVal}
+InclMarked == [start : 0..MaxVal, length : 0..MaxVal, marker : {TRUE}, moff : {0, 3, MaxVal}]
+RangeSet(e) == PlainSet \cup (IF WithMarkers THEN (IF e THEN ExclMarkers ELSE InclMarked) ELSE {})
 Init == /\ len \in 0..MaxLen
         /\ excl \in BOOLEAN
-        /\ rs \in UNION {[1..n -> RangeSet] : n \in 0..MaxRanges}
+        /\ rs \in UNION {[1..n -> RangeSet(excl)] : n \in 0..MaxRanges}
 Next == UNCHANGED vars
 Spec == Init /\ [][Next]_vars
 \* property layer vs mirror layer on the inputs where the statement is unambiguous
-Agree == (Unambiguous(len, rs, excl) /\ ~(excl /\ (Q1(len, rs) \/ Q2(len, rs)))) => SameSel(CodedSel(len, rs, excl), RefSel(len, rs, excl))
+Agree == (Unambiguous(len, rs, excl) /\ ~(excl /\ (Q1(len, rs) \/ Q2(len, rs))) /\ ~(~excl /\ QI(len, rs))) => SameSel(CodedSel(len, rs, excl), RefSel(len, rs, excl))
 \* rejected inputs are rejected (this half needs no ambiguity restriction beyond len > 0)
 PastEndRejected == (len > 0 /\ PastEnd(len, rs)) => CodedSel(len, rs, excl) = Err
 \* structural sanity of the reference itself
@@ -22,5 +24,5 @@ RefExclOrdered == LET s == RefSel(len, rs, TRUE) IN
    (s # Err) => \A i, j \in 1..Len(s) : (i < j /\ s[i][1] = "b" /\ s[j][1] = "b") => s[i][3] <= s[j][2]
 Emit == Unambiguous(len, rs, excl) =>
         PrintT(<<"VEC", ToJson([len |-> len, excl |-> excl, rs |-> rs, sel |-> RefSel(len, rs, excl),
-                                q1 |-> excl /\ Q1(len, rs), q2 |-> excl /\ Q2(len, rs)])>>)
+                                q1 |-> excl /\ Q1(len, rs), q2 |-> excl /\ Q2(len, rs), qi |-> ~excl /\ QI(len, rs)])>>)
 ====
